@@ -109,6 +109,19 @@ fn sc_zero(prop: &str) -> LevelCfg {
     c
 }
 
+/// SC-twin: two ids of different formats (UUID #1, ULID #4) that share their 16 bytes, plus #2
+fn sc_twin(prop: &str) -> LevelCfg {
+    let ts = [Tmpl::S5, Tmpl::IC23, Tmpl::RSa];
+    let mut c = base_cfg(prop, "SC-twin", LEVEL_PRICE, tmpl_named(&ts, LEVEL_PRICE));
+    c.ops = adds(&[1, 4, 2], ts.len());
+    c.ops.extend(upds(
+        &[1, 4, 2],
+        &[UpdKind::Cancel, UpdKind::Amend(1), UpdKind::Move],
+    ));
+    c.ops.extend(matches(&[1, 4, 1000]));
+    c
+}
+
 /// SC-edge: quantities at the 64-bit limits on a level of price 1
 fn sc_edge(prop: &str) -> LevelCfg {
     let m = u64::MAX;
@@ -190,10 +203,14 @@ pub fn plans(prop: &str, tier: &str) -> Vec<Plan> {
             let mut e = sc_edge(prop);
             e.check.c01 = true;
             e.ops.extend([Op::Restore(Path::SnapJson), Op::Restore(Path::Text)]);
+            let mut w = sc_twin(prop);
+            w.check.c01 = true;
+            w.ops.extend([Op::Restore(Path::SnapJson), Op::Restore(Path::Text), Op::Restore(Path::Serde)]);
             vec![
                 Plan { cfg: a, depth: d(4, 5) },
                 Plan { cfg: z, depth: d(6, 9) },
                 Plan { cfg: e, depth: d(5, 8) },
+                Plan { cfg: w, depth: d(4, 6) },
             ]
         }
         "C02" => {
@@ -294,9 +311,16 @@ pub fn plans(prop: &str, tier: &str) -> Vec<Plan> {
                 &[1, 2, 3],
                 &[UpdKind::Move, UpdKind::RepriceSame, UpdKind::ReplaceSame(2), UpdKind::PqMove(2)],
             ));
+            let mut w = sc_twin(prop);
+            w.check.c07 = true;
+            w.check.twin = true;
+            w.check.drain = true;
+            w.absent_ops = true;
+            w.variants = vec![(true, true)];
             vec![
                 Plan { cfg: a, depth: d(4, 5) },
                 Plan { cfg: o, depth: d(5, 6) },
+                Plan { cfg: w, depth: d(4, 5) },
             ]
         }
         "C10" => {
@@ -315,6 +339,7 @@ pub fn plans(prop: &str, tier: &str) -> Vec<Plan> {
         "C11" => {
             let mut o = sc_order(prop);
             o.check.c11 = true;
+            o.variants = vec![(true, true)];
             // timestamps pinned per template are not used: the (id, template) table gives ties (#2,#3)
             // and a later #1; an amended / replenished / re-queued order keeps its timestamp
             vec![Plan { cfg: o, depth: d(4, 6) }]
